@@ -10,6 +10,16 @@ CLAIMS = {
    note="Trusted: Lean kernel + propext/Classical.choice/Quot.sound; gen_tables.py translator; serialiser/driver; hand-written Py.grad vector rules validated (not proved) against the code by the correspondence run; regular points only (singular set is C19); IEEE rounding not modelled; scalar constants only.",
    technique="Lean 4 proof by mutual structural induction over a translated+hand-written model; differential correspondence check; dual-number failing-input search",
    design_ref="DESIGN.md §5 C02"),
+ "C08": dict(
+   text="Machine-checked proof (Lean 4 + Mathlib, any linearly ordered field): `lp_pipeline_faithful` — for ANY function linprog that meets the LP contract on the data it is given, optyx's LP path returns the verdict (optimal / infeasible / unbounded) and optimal value of the extracted model in the user's orientation (feasible sets coincide because matrices and bounds are passed through unchanged — `feasible_iff`; max f = −min(−f); un-negation and the constant term restore the value; status chain total and equal to the regenerated table — `lpStatus_table`). Tied to the code by spying the real scipy.optimize.linprog seam: keyword arguments passed and Solution returned are compared exactly with the executable model on every solve; the property's own differential (independently assembled matrix form, same solver, every writing style, 5 methods, solved twice) is the oracle that yields the failing input.",
+   note="Partial in one sense: the inside of HiGHS/linprog is trusted through an explicit hypothesis (LinprogContract), never an axiom. 'Extracted data denote the user's model' is property C05. Trusted: Lean kernel + standard axioms, serialiser/driver, model of the solve_lp glue validated by the seam correspondence.",
+   technique="Lean 4 proof of the pipeline for any contract-abiding solver; seam-level differential correspondence; independent-assembly LP differential",
+   design_ref="DESIGN.md §5 C08"),
+ "C09": dict(
+   text="Machine-checked proofs (Lean 4) of the decision logic optyx adds in front of scipy.optimize.minimize: the default starting point lies inside the declared bounds (`initialPoint_in_bounds`), `auto` never selects L-BFGS-B for a constrained problem and selects trust-constr exactly when a degree is None or > 2 (`autoSelect_*`), the LP/NLP dispatch of Problem.solve (`route_lp_iff`), which optional arguments each method receives read off the regenerated method sets (`gate_table`), and maximise hands SciPy exactly −f and −∇f (`maximize_sign`). Tied to the code at the minimize seam: method chosen, arguments present, x0 and dispatch are compared with the executable model on every solve, and every captured callable (fun, jac, hess, constraint fun/jac, bounds) is probed against hand-written NumPy closures. Oracle = the property's differential: strictly convex problems with a manufactured optimum, raw SciPy with hand-written callables from the same start vs optyx.",
+   note="Partial: convergence of SciPy is not provable (trusted/tested); 'raw converges ⇒ optyx OPTIMAL' is shown through equality of inputs (proved for the decision logic, validated by probing for the callables, whose correctness is C01/C03/C10/C17) plus the differential. Trusted: Lean kernel + standard axioms, serialiser/driver.",
+   technique="Lean 4 proofs of argument-assembly logic; minimize-seam correspondence with callable probing; manufactured-optimum differential against raw SciPy",
+   design_ref="DESIGN.md §5 C09"),
 }
 
 checks = []
